@@ -28,7 +28,14 @@ pub struct Runner {
     out: Option<Box<dyn Write>>,
     pub keep: bool,
     pub events: Vec<Value>,
+    /// One long-lived receive buffer, as a driver has: every input of decode_packet / get_length /
+    /// process_packet is copied into it and handed over as a slice of it, so that consecutive calls see
+    /// the same buffer address with different contents (state keyed on the address of the input, or left
+    /// behind in relation to it, is exercised deterministically rather than at the allocator's whim).
+    rx: Vec<u8>,
 }
+
+const RX_CAP: usize = 8192;
 
 pub fn bytes(v: &Value) -> Vec<u8> {
     v.as_array()
@@ -59,6 +66,11 @@ fn jb(b: &[u8]) -> Value {
     Value::Array(b.iter().map(|x| json!(*x)).collect())
 }
 
+// The three conversions below end in a wildcard arm so that a variant added to a public enum of the library
+// does not stop the harness from building (a build failure would be a tool error, not a verdict): an unknown
+// variant is recorded as a value / name the specification does not know, which the monitor rejects wherever a
+// property speaks about the reported type or error.
+#[allow(unreachable_patterns)]
 fn mt_num(t: &MessageType) -> u8 {
     match t {
         MessageType::MCtpControl => 0x00,
@@ -67,6 +79,7 @@ fn mt_num(t: &MessageType) -> u8 {
         MessageType::VendorDefinedPCI => 0x7E,
         MessageType::VendorDefinedIANA => 0x7F,
         MessageType::Invalid => 0xFF,
+        _ => 0xEE,
     }
 }
 
@@ -94,6 +107,7 @@ fn cc_of(n: u64) -> CompletionCode {
     }
 }
 
+#[allow(unreachable_patterns)]
 fn cc_num(c: &CompletionCode) -> u8 {
     match c {
         CompletionCode::Success => 0,
@@ -102,9 +116,11 @@ fn cc_num(c: &CompletionCode) -> u8 {
         CompletionCode::ErrorInvalidLength => 3,
         CompletionCode::ErrorNotReady => 4,
         CompletionCode::ErrorUnsupportedCmd => 5,
+        _ => 0xEE,
     }
 }
 
+#[allow(unreachable_patterns)]
 fn err_json(t: &MessageType, e: &DecodeError) -> Value {
     let (name, cc) = match e {
         DecodeError::Unknown => ("Unknown", 0),
@@ -114,7 +130,9 @@ fn err_json(t: &MessageType, e: &DecodeError) -> Value {
             ControlMessageError::InvalidControlHeader => ("InvalidControlHeader", 0),
             ControlMessageError::UnsuccessfulCompletionCode(cc) => ("Unsuccessful", cc_num(cc)),
             ControlMessageError::InvalidPEC => ("InvalidPEC", 0),
+            _ => ("UnknownVariant", 0),
         },
+        _ => ("UnknownVariant", 0),
     };
     json!({"kind":"err","type":mt_num(t),"err":name,"cc":cc})
 }
@@ -240,6 +258,7 @@ impl Runner {
             out,
             keep: false,
             events: Vec::new(),
+            rx: vec![0u8; RX_CAP],
         }
     }
 
@@ -247,6 +266,17 @@ impl Runner {
         if let Some(o) = self.out.as_mut() {
             o.flush().expect("flush trace");
         }
+    }
+
+    /// copies an input into the long-lived receive buffer (grown once, up front, never reallocated
+    /// for inputs up to RX_CAP bytes) and returns its length
+    fn load_rx(&mut self, p: &[u8]) -> usize {
+        if self.rx.len() < p.len().max(RX_CAP) {
+            self.rx.resize(p.len().max(RX_CAP), 0);
+        }
+        self.rx[..p.len()].copy_from_slice(p);
+        // bytes beyond the input keep whatever the previous input left there, as in a real driver
+        p.len()
     }
 
     fn ctx(&self, c: u64) -> &MCTPSMBusContext<'static> {
@@ -307,16 +337,18 @@ impl Runner {
             "enc_req" | "enc_resp" | "enc_vendor" | "enc_gen" => self.op_encode(&op, cmd, &mut ev),
             "decode" => {
                 let c = num(cmd, "ctx");
-                let p = bytes(&cmd["p"]);
+                let n = self.load_rx(&bytes(&cmd["p"]));
+                let p = &self.rx[..n];
                 ev.insert("pre".into(), self.eids(c));
-                ev.insert("res".into(), decode_json(self.ctx(c), &p));
+                ev.insert("res".into(), decode_json(self.ctx(c), p));
                 ev.insert("post".into(), self.eids(c));
             }
             "get_length" => {
                 let c = num(cmd, "ctx");
-                let p = bytes(&cmd["p"]);
+                let n = self.load_rx(&bytes(&cmd["p"]));
+                let p = &self.rx[..n];
                 ev.insert("pre".into(), self.eids(c));
-                ev.insert("res".into(), length_json(self.ctx(c), &p));
+                ev.insert("res".into(), length_json(self.ctx(c), p));
                 ev.insert("post".into(), self.eids(c));
             }
             "process" => self.op_process(cmd, &mut ev),
@@ -614,17 +646,18 @@ impl Runner {
 
     fn op_process(&mut self, cmd: &Value, ev: &mut Map<String, Value>) {
         let c = num(cmd, "ctx");
-        let p = bytes(&cmd["p"]);
+        let n = self.load_rx(&bytes(&cmd["p"]));
+        let p = &self.rx[..n];
         let rbuf_len = num(cmd, "rbuf_len") as usize;
         let poison = num(cmd, "poison") as u8;
         let mut rbuf = vec![poison; rbuf_len];
         ev.insert("pre".into(), self.eids(c));
         let ctx = self.ctx(c);
-        ev.insert("dec".into(), decode_json(ctx, &p));
-        let r = catch_unwind(AssertUnwindSafe(|| ctx.process_packet(&p, &mut rbuf)));
+        ev.insert("dec".into(), decode_json(ctx, p));
+        let r = catch_unwind(AssertUnwindSafe(|| ctx.process_packet(p, &mut rbuf)));
         let res = match r {
             Ok(Ok(((t, payload), rl))) => {
-                let (lo, hi) = span(&p, payload);
+                let (lo, hi) = span(p, payload);
                 let rl: i64 = match rl {
                     Some(n) => n as i64,
                     None => -1,
